@@ -384,8 +384,8 @@ example :
   decide
 
 /-- a vertical tab, a form feed, U+0085 and U+2028 do NOT end a line: the pattern behind them removes the whole physical
-line; a carriage return does (text mode translates it): only the part behind it is removed — known finding
-clean-file-splits-at-cr -/
+line; a carriage return does: the lines of a file are Python's text-mode lines (universal newlines), so `head` and
+`DROP tail` are two input lines and only the second is removed -/
 example :
     let E : Env := ⟨fun _ => [], fun _ => [], fun _ => [], fun _ => false, fun _ => [], fun _ => false, fun _ => [], id, {}⟩
     let cfg : Cfg := ⟨"h.d".toList, false, false, false, false, [], ["DROP".toList]⟩
